@@ -326,6 +326,8 @@ def parse_server(server: str) -> tuple[socket.AddressFamily, str, int]:
             raise ValueError(server)
         ipaddress.IPv6Address(host)
         split = server.split(":")
+        if split[0]:
+            raise ValueError(server)
         address_family = socket.AF_INET6
     else:
         split = server.split(":")
@@ -345,6 +347,8 @@ def parse_server(server: str) -> tuple[socket.AddressFamily, str, int]:
                 address_family = socket.AF_INET
 
     if len(split) == 3:  # ::port
+        if split[1]:
+            raise ValueError(server)
         port = int(split[2])
     elif len(split) == 2:  # :display
         port = int(split[1]) + 5900
